@@ -1,6 +1,7 @@
 import ScenicModel.Props.C16Sem
 import ScenicModel.Props.C16Points
 import ScenicModel.Props.C16Metric
+import ScenicModel.Props.C16Proj
 import ScenicModel.Gen.RegionOps
 
 /-!
@@ -18,9 +19,13 @@ Statement wanted by the property, kept visible:
     ∀ A B p,  (A.intersect B).mem p = (A.mem p ∧ B.mem p),   (A.union B).mem p = (A.mem p ∨ B.mem p),
               (A.difference B).mem p = (A.mem p ∧ ¬ B.mem p),  A.intersects B ↔ ∃ p, A.mem p ∧ B.mem p
 
-It does **not** hold of the code at the pinned commit (see `knownFamily`, `knownIsectFamily`, `loopy` and the witness
-theorems of `C16Sem` / `C16Points`); what is proved is the statement outside those families, and the check
-replays a concrete failing input of each family on the real code (known findings).
+After the repairs 7945c47f, b481834b, 617805a9, 1511e557 the first three hold of the current table for **all**
+regions of the modelled kinds and all points, with the single stated exception `curveCut` (a polygon minus a
+polyline: proved for the points off the polyline, all of whose points are boundary points), and the dispatch
+terminates for every pair.  `intersects` holds outside `knownIsectDefect`, which is *computed from the current
+data* and today consists of a point set against a composite region (genuine remaining defect, witness
+`trueContains_composite_witness`, proposed repair `notes/fixes/C16-composite-true-membership.diff`); it becomes
+empty as soon as the flag `compTrueStructural` is extracted as `true`.
 -/
 namespace Scenic.C16
 open Scenic.Region Scenic.Gen.RegionOps
@@ -83,38 +88,14 @@ def finished : Route → Bool
   | .crash => false
   | .fuel => false
 
-/-- **finding `crash:union:lazy:poly-poly:RecursionError`**: `PolygonalRegion.union` defers lazy operands with
-    `super().union(other)`, dropping `triedReversed`; two polygonal operands then bounce forever.  The family is
-    read off the regenerated table: it is empty as soon as the clause passes the flag on. -/
-def loopy (T : Table) (op : Op) (c : Ctl) : Bool :=
-  op == .union && planarK c.ka && planarK c.kb && (c.la || c.lb) &&
-    (match T.cls .poly .union with
-     | some cs => cs.any (fun cl => cl.guards == [.lzy] && cl.act == .superFresh)
-     | none => false)
-
-/-- families of control states in which the pinned code does not obey set semantics (known findings) -/
-def knownFamily (op : Op) (c : Ctl) : Bool :=
-  -- a polygon at height ≠ 0 against a polyline (which lives at height 0), in either order
-  ((op == .intersect || op == .difference) &&
-        ((planarK c.ka && c.kb == .line && c.ea) || (c.ka == .line && planarK c.kb && c.eb)))
-  -- a polygon minus a curve is returned unchanged (not representable; by design)
-  || (op == .difference && planarK c.ka && c.kb == .line)
-  -- unions of a polygon with a polyline or a footprint collapse to a polygon at the polygon's height
-  || (op == .union && ((planarK c.ka && (c.kb == .line || c.kb == .foot)) || (planarK c.kb && (c.ka == .line || c.ka == .foot))))
-
-/-- the control states of the known families whose route on the *current* table is indeed not accepted
-    (empty for a family once the code is repaired) -/
-def knownDefect (T : Table) (F : Flags) (op : Op) (c : Ctl) : Bool :=
-  loopy T op c || (knownFamily op c && !routeOK F op c (routeOf T fuelBound op c))
-
-/-- families in which `intersects` does not decide "share a point" at the pinned commit (known findings) -/
+/-- families in which `intersects` does not decide "share a point" in the current code (known finding): a point
+    set against a composite region — `PointSetRegion.intersects` asks `other._trueContainsPoint`, which composites
+    inherit from `Region` (= `containsPoint`, footprint semantics) -/
 def knownIsectFamily (c : Ctl) : Bool :=
-  (planarK c.ka && c.kb == .line && c.ea) || (c.ka == .line && planarK c.kb && c.eb)      -- height of the polygon ignored
-  || (c.ka == .disc && c.kb == .disc && c.zne)                                         -- CircularRegion override skips the height test
-  -- `PointSetRegion.intersects` asks `containsPoint`, which has footprint semantics for polygons and composites
-  || (c.ka == .pts && (c.kb == .poly || c.kb == .comp)) || (c.kb == .pts && (c.ka == .poly || c.ka == .comp))
+  (c.ka == .pts && c.kb == .comp) || (c.kb == .pts && c.ka == .comp)
 
-/-- the control states of the known `intersects` families whose route on the current table is indeed not accepted -/
+/-- the control states of the known `intersects` family whose route on the current table is indeed not accepted
+    (empty once the code is repaired) -/
 def knownIsectDefect (T : Table) (F : Flags) (c : Ctl) : Bool :=
   knownIsectFamily c && !isectRouteOK' F c (routeOf T fuelBound .intersects c)
 
@@ -127,17 +108,27 @@ theorem gen_flags_ok :
   unfold Flags.pointsOK; decide
 
 /-- every ordered pair of kinds, lazy or eager, at equal or different heights, reaches a handler or a
-    composite within the fuel bound, for all four operations (outside the `loopy` family) -/
+    composite within the fuel bound, for all four operations -/
 theorem gen_routes_terminate :
-    (Op.list.all fun op => goodCtl.all fun c =>
-      loopy table op c || finished (routeOf table fuelBound op c)) = true := by
+    (Op.list.all fun op => goodCtl.all fun c => finished (routeOf table fuelBound op c)) = true := by
   decide +kernel
 
-/-- every route taken by intersect / union / difference is accepted by the judgement `routeOK`
-    (outside the `knownDefect` families) -/
+/-- every route taken by intersect / union / difference is accepted by the judgement `routeOK` (or is the
+    `curveCut` route of a polygon minus a polyline) -/
 theorem gen_routes_sound :
     ([Op.intersect, Op.union, Op.difference].all fun op => goodCtl.all fun c =>
-      loopy table op c || knownFamily op c || routeOK flags op c (routeOf table fuelBound op c)) = true := by
+      routeOKc flags op c (routeOf table fuelBound op c)) = true := by
+  decide +kernel
+
+/-- the `curveCut` exception is only ever used for `difference` of a flat polygon and a polyline: intersect and
+    union routes are accepted by `routeOK` itself -/
+theorem gen_routes_sound_strict :
+    ([Op.intersect, Op.union].all fun op => goodCtl.all fun c =>
+      routeOK flags op c (routeOf table fuelBound op c)) = true := by
+  decide +kernel
+
+/-- a `Workspace` hands every region operation and point query on to the region it wraps -/
+theorem gen_workspace_delegates : Delegation.allForward workspace = true := by
   decide +kernel
 
 /-- every route taken by `intersects` is accepted by `isectRouteOK'` (exact handlers, or the generic
@@ -161,52 +152,71 @@ section
 variable (O : Oracle) (A B : Reg) (hfa : A.kind = .foot → bareFoot A) (hfb : B.kind = .foot → bareFoot B)
 include hfa hfb
 
-theorem mem_op (op : Op) (hop : op = .intersect ∨ op = .union ∨ op = .difference)
-    (hk : knownDefect table flags op (ctlOf A B) = false) :
-    ∃ res, dispatch table O flags op A B = .res res ∧ ∀ p, res.mem p = op.sem (A.mem p) (B.mem p) := by
+theorem mem_op (op : Op) (hop : op = .intersect ∨ op = .union ∨ op = .difference) :
+    ∃ res, dispatch table O flags op A B = .res res ∧
+      ∀ p, ((op = .difference ∧ curveCut (ctlOf A B) = true) → B.mem p = false) →
+        res.mem p = op.sem (A.mem p) (B.mem p) := by
   have h := gen_routes_sound
   simp only [List.all_eq_true] at h
   have hop' : op ∈ [Op.intersect, Op.union, Op.difference] := by
     rcases hop with rfl | rfl | rfl <;> simp
-  have := h op hop' (ctlOf A B) (mem_goodCtl A B)
-  simp only [knownDefect, Bool.or_eq_false_iff, Bool.and_eq_false_iff, Bool.not_eq_false'] at hk
-  have hr : routeOK flags op (ctlOf A B) (routeOf table fuelBound op (ctlOf A B)) = true := by
-    simp only [hk.1, Bool.false_or, Bool.or_eq_true] at this
-    rcases this with hf | hr
-    · rcases hk.2 with hnf | hr
-      · rw [hf] at hnf; exact absurd hnf (by simp)
-      · exact hr
-    · exact hr
-  exact exec_sound O flags op _ A B hfa hfb hr
+  exact exec_sound_c O flags op _ A B hfa hfb (h op hop' (ctlOf A B) (mem_goodCtl A B))
 
-/-- a point belongs to `A.intersect(B)` exactly when it belongs to both, in three coordinates
-    (all regions of the modelled kinds, outside the known-finding families) -/
-theorem mem_intersect (hk : knownDefect table flags .intersect (ctlOf A B) = false) :
+theorem mem_op_strict (op : Op) (hop : op = .intersect ∨ op = .union) :
+    ∃ res, dispatch table O flags op A B = .res res ∧ ∀ p, res.mem p = op.sem (A.mem p) (B.mem p) := by
+  have h := gen_routes_sound_strict
+  simp only [List.all_eq_true] at h
+  have hop' : op ∈ [Op.intersect, Op.union] := by
+    rcases hop with rfl | rfl <;> simp
+  exact exec_sound O flags op _ A B hfa hfb (h op hop' (ctlOf A B) (mem_goodCtl A B))
+
+/-- **a point belongs to `A.intersect(B)` exactly when it belongs to both**, in three coordinates, for all regions
+    of the modelled kinds (lazy or eager, any heights) and all points -/
+theorem mem_intersect :
     ∃ res, dispatch table O flags .intersect A B = .res res ∧ ∀ p, res.mem p = (A.mem p && B.mem p) :=
-  mem_op O A B hfa hfb .intersect (Or.inl rfl) hk
+  mem_op_strict O A B hfa hfb .intersect (Or.inl rfl)
 
-theorem mem_union (hk : knownDefect table flags .union (ctlOf A B) = false) :
+/-- **a point belongs to `A.union(B)` exactly when it belongs to one of them** -/
+theorem mem_union :
     ∃ res, dispatch table O flags .union A B = .res res ∧ ∀ p, res.mem p = (A.mem p || B.mem p) :=
-  mem_op O A B hfa hfb .union (Or.inr (Or.inl rfl)) hk
+  mem_op_strict O A B hfa hfb .union (Or.inr rfl)
 
-theorem mem_difference (hk : knownDefect table flags .difference (ctlOf A B) = false) :
-    ∃ res, dispatch table O flags .difference A B = .res res ∧ ∀ p, res.mem p = (A.mem p && !B.mem p) :=
-  mem_op O A B hfa hfb .difference (Or.inr (Or.inr rfl)) hk
+/-- **a point belongs to `A.difference(B)` exactly when it belongs to A and not to B** — for a flat polygon minus a
+    polyline (`curveCut`) at the points off the polyline, whose points are all boundary points -/
+theorem mem_difference :
+    ∃ res, dispatch table O flags .difference A B = .res res ∧
+      ∀ p, (curveCut (ctlOf A B) = true → B.mem p = false) → res.mem p = (A.mem p && !B.mem p) := by
+  obtain ⟨res, h1, h2⟩ := mem_op O A B hfa hfb .difference (Or.inr (Or.inr rfl))
+  exact ⟨res, h1, fun p hp => h2 p (fun h => hp h.2)⟩
 
 end
 
-example : knownDefect table flags .intersect (ctlOf (.planar 5 unitDisc) (.vol (Box.aligned ⟨0, 0, 5⟩ ⟨1, 1, 1⟩))) = false := by
-  decide +kernel
+example : curveCut (ctlOf (.planar 5 unitDisc) (.vol (Box.aligned ⟨0, 0, 5⟩ ⟨1, 1, 1⟩))) = false := by decide
+example : curveCut (ctlOf (.planar 0 unitDisc) (.line [⟨-3, 0⟩, ⟨3, 0⟩])) = true := by decide
+example : bareFoot (.foot unitDisc) := trivial
 
 /-- `A op B` never falls off a method or recurses without bound, for every pair of regions and all four
-    operations (outside the lazy-union family, which does: finding `crash:union:lazy:poly-poly:RecursionError`) -/
-theorem dispatch_terminates (A B : Reg) (op : Op) (hl : loopy table op (ctlOf A B) = false) :
+    operations -/
+theorem dispatch_terminates (A B : Reg) (op : Op) :
     finished (routeOf table fuelBound op (ctlOf A B)) = true := by
   have h := gen_routes_terminate
   simp only [List.all_eq_true] at h
   have hop : op ∈ Op.list := by cases op <;> simp [Op.list]
-  have := h op hop (ctlOf A B) (mem_goodCtl A B)
-  simpa [hl] using this
+  exact h op hop (ctlOf A B) (mem_goodCtl A B)
+
+/-- the table with the lazy clause of `PolygonalRegion.union` as it was before 7945c47f (`super().union(other)`,
+    the flag dropped) -/
+def tableBefore7945c47f : Table :=
+  ⟨fun k op => if k == .poly && op == .union then
+      some [⟨[.lzy], .superFresh⟩, ⟨[.hasPoly], .run (.polyOr true)⟩, ⟨[], .super⟩]
+    else clsTable k op, genericTable⟩
+
+/-- the defect repaired by 7945c47f: with the flag dropped, the union of two polygonal regions one of which is
+    lazy bounces between the two operands until the fuel (Python: the recursion limit) is exhausted -/
+theorem lazy_union_loop_witness :
+    finished (routeOf tableBefore7945c47f fuelBound .union ⟨.poly, .poly, true, false, false, false, false⟩) = false ∧
+    finished (routeOf table fuelBound .union ⟨.poly, .poly, true, false, false, false, false⟩) = true := by
+  decide +kernel
 
 /-- intersect / union / difference of two eagerly built polygonal regions at the same height is a polygonal
     region **at that height** (the defect repaired by 4fd67d49 made it height 0) -/
@@ -244,9 +254,8 @@ theorem result_keeps_height (O : Oracle) (A B : Reg) (ha : planarK A.kind = true
 example : planarK (Reg.planar 5 unitDisc).kind = true ∧ (Reg.planar 5 unitDisc).isLazy = false := ⟨rfl, rfl⟩
 
 /-- **`A.intersects(B)` is either refused (NotImplementedError) or holds exactly when A and B share a point**,
-    for all regions of the modelled kinds (outside `knownIsectDefect`, computed from the current table: discs at
-    different heights, an elevated polygon against a polyline, a point set against a polygon or a composite —
-    witnesses `disc_intersects_height_witness`, `ptsAny_footprint_witness`), under the contracts of the geometric
+    for all regions of the modelled kinds (outside `knownIsectDefect`, computed from the current data: a point set
+    against a composite region — witness `trueContains_composite_witness`), under the contracts of the geometric
     oracles -/
 theorem intersects_iff_common_point (O : Oracle) (hO : OracleOK O) (A B : Reg)
     (hrA : 0 ≤ A.radius) (hrB : 0 ≤ B.radius)
@@ -270,5 +279,26 @@ theorem intersects_iff_common_point (O : Oracle) (hO : OracleOK O) (A B : Reg)
 
 example : knownIsectDefect table flags (ctlOf (.planar 5 unitDisc) (.vol (Box.aligned ⟨0, 0, 5⟩ ⟨1, 1, 1⟩))) = false := by
   decide +kernel
+
+/-- discs at different heights, an elevated polygon against a polyline and a point set against a polygon are no
+    longer excluded (repairs 617805a9, b481834b, 1511e557) -/
+example : knownIsectDefect table flags (ctlOf (.disc 0 ⟨0, 0⟩ 1) (.disc 1 ⟨0, 0⟩ 1)) = false ∧
+    knownIsectDefect table flags (ctlOf (.planar 5 unitDisc) (.line [⟨-3, 0⟩, ⟨3, 0⟩])) = false ∧
+    knownIsectDefect table flags (ctlOf (.pts [⟨0, 0, 0⟩]) (.planar 5 unitDisc)) = false := by
+  decide +kernel
+
+/-- **projection `onto` a box returns the nearest member along the given direction**, on the flags read off the
+    current source (`numpy.linalg.norm(…, axis=1)`): the result is a member on the line `p + t·d`, no member of the
+    line is nearer in either direction, and `None` is returned only when the line misses the box -/
+theorem project_nearest (b : Box) (hb : b.proper) (p d : Pt) :
+    (∀ q, projectVector flags b p d = some q →
+      b.mem q = true ∧ ∃ t, q = p.along d t ∧ ∀ s, b.mem (p.along d s) = true → t * t ≤ s * s) ∧
+    (projectVector flags b p d = none → ∀ s, b.mem (p.along d s) = false) :=
+  projectVector_nearest flags gen_flags_ok.2.2.2.2.2.2 b hb p d
+
+/-- the membership realised by the generic samplers of `A op B` (composite of two primitive operands) and the
+    support of the point-set sampler are 3-coordinate membership on the current flags -/
+theorem sampler_membership (R : Reg) (hf : flatComp R) (p : Pt) : memCode flags R p = R.mem p :=
+  memCode_eq_mem flags gen_flags_ok.1 R hf p
 
 end Scenic.C16
